@@ -42,10 +42,16 @@ type c11store struct {
 	start c11state
 	fail  bool // the first WriteState returns an error (the store is down)
 	lazy  bool // keeps the event slice it is handed instead of copying it
+	nilE  bool // answers a nil state (not an empty one) when it holds nothing for the client, as the interface allows
 	calls int
 }
 
-func (s *c11store) ReadState(*http.Request) (authboss.ClientState, error) { return s.start, nil }
+func (s *c11store) ReadState(*http.Request) (authboss.ClientState, error) {
+	if s.nilE && len(s.start) == 0 {
+		return nil, nil
+	}
+	return s.start, nil
+}
 func (s *c11store) WriteState(w http.ResponseWriter, st authboss.ClientState, evs []authboss.ClientStateEvent) error {
 	if s.lazy {
 		// a write-behind store: it keeps the slice it was handed and applies it after the request — what
@@ -161,11 +167,11 @@ type c11get struct {
 }
 
 // c11run executes the program behind the real LoadClientStateMiddleware.
-func c11run(prog []c11op, sessStart, cookStart c11state, failS, failC bool) (*c11log, []c11get, string) {
+func c11run(prog []c11op, sessStart, cookStart c11state, failS, failC, nilEmpty bool) (*c11log, []c11get, string) {
 	l := &c11log{}
 	ab := authboss.New()
-	ab.Config.Storage.SessionState = &c11store{l: l, kind: "sessWrite", start: sessStart, fail: failS}
-	ab.Config.Storage.CookieState = &c11store{l: l, kind: "cookWrite", start: cookStart, fail: failC}
+	ab.Config.Storage.SessionState = &c11store{l: l, kind: "sessWrite", start: sessStart, fail: failS, nilE: nilEmpty}
+	ab.Config.Storage.CookieState = &c11store{l: l, kind: "cookWrite", start: cookStart, fail: failC, nilE: nilEmpty}
 	var gets []c11get
 	nested := len(prog) > 0 && prog[0].Op == "nested"
 	if len(prog) > 0 && prog[0].Op == "lazy" {
@@ -404,7 +410,22 @@ func c11Unit(c *RunCtx, unit int) {
 			}
 		}
 		failS, failC := r.Intn(12) == 0, r.Intn(12) == 0
-		l, gets, pan := c11run(prog, ss, cs, failS, failC)
+		// stores that answer nil for a client they hold nothing for (every third program; in half of those
+		// the client arrives without a session, or without cookies, at all). Not drawn from r: the programs
+		// of earlier seeds stay what they were.
+		// (not combined with the nested arrangement: the instances share their context keys, so what an
+		// inner store declines to answer is, by construction, what the outer instance read)
+		nilEmpty := (i+unit)%3 == 0 && !(len(prog) > 0 && prog[0].Op == "nested")
+		if nilEmpty {
+			c.Stats.Count("programs-with-nil-answering-stores")
+			switch (i / 3) % 4 {
+			case 0:
+				ss = c11state{}
+			case 1:
+				cs = c11state{}
+			}
+		}
+		l, gets, pan := c11run(prog, ss, cs, failS, failC, nilEmpty)
 		c.Stats.Evaluations++
 		sig, msg := c11check(prog, l, gets, ss, cs, pan, failS, failC)
 		if failS || failC {
@@ -474,7 +495,7 @@ func min(a, b int) int {
 func init() {
 	register(&Check{
 		ID: "C11", Level: "exploration",
-		Rule:  "random handler programs (0-25 operations over putS/delS/delAllS/putC/delC/getS/getC/WriteHeader (final codes, 100/103 informational, 101)/Write/io.Copy (the base writer implements io.ReaderFrom like net/http's) and nesting the writer in wrappers exposing UnderlyingResponseWriter() or Unwrap(), depth <= 4; one program in five runs directly inside a second Authboss instance's LoadClientStateMiddleware, whose stores must receive nothing; one in five uses write-behind stores that keep the event slice they are handed (what they hold at the end of the request is what was delivered); in 1/6 of the programs one of the stores fails its first WriteState and the handler recovers and carries on) executed by a handler behind the real LoadClientStateMiddleware with two recording stores and a recording base writer sharing one sequence counter. Offline checker over the log: each store receives <= 1 delivery, exactly the operations made for it before the first write, same order/keys/values, never the other store's; every delivery precedes the first header or body byte released to the base writer; operations after the first write are never delivered; every read returns the request-start value whatever was put earlier. distinct_nontrivial = distinct program shapes (#ops, #ops before first write, #writes, wrapper depth, kind of first write).",
+		Rule:  "random handler programs (0-25 operations over putS/delS/delAllS/putC/delC/getS/getC/WriteHeader (final codes, 100/103 informational, 101)/Write/io.Copy (the base writer implements io.ReaderFrom like net/http's) and nesting the writer in wrappers exposing UnderlyingResponseWriter() or Unwrap(), depth <= 4; one program in five runs directly inside a second Authboss instance's LoadClientStateMiddleware, whose stores must receive nothing; one in five uses write-behind stores that keep the event slice they are handed (what they hold at the end of the request is what was delivered); in 1/6 of the programs one of the stores fails its first WriteState and the handler recovers and carries on; every third program (never a nested one) runs with stores that answer a nil state, not an empty one, for a client they hold nothing for, and in half of those the client arrives without a session or without cookies) executed by a handler behind the real LoadClientStateMiddleware with two recording stores and a recording base writer sharing one sequence counter. Offline checker over the log: each store receives <= 1 delivery, exactly the operations made for it before the first write, same order/keys/values, never the other store's; every delivery precedes the first header or body byte released to the base writer; operations after the first write are never delivered; every read returns the request-start value whatever was put earlier. distinct_nontrivial = distinct program shapes (#ops, #ops before first write, #writes, wrapper depth, kind of first write).",
 		Units: func(t string) int { return tierN(t, 64, 256) },
 		Run:   c11Unit,
 		Floors: func(t string) map[string]int {
